@@ -16,7 +16,8 @@ RULE = ("(i) the finite header space is enumerated: delimited streams with an em
         "streams with every options-row length 2..127 and every two-byte row-length varint - ground truth is the "
         "construction mode. (ii) real streams: hand-encoded minimal streams whose first frame / options row has length "
         "exactly 10 (and 9, 11, 127, 128, 300), and pyjelly serializer output in both modes with the stream name padded so "
-        "that the options row length sweeps 8..140, and with a literal sized so that the frame length sweeps 118..136 and "
+        "that the options row length sweeps 8..140 (each also parsed from a BytesIO positioned after a foreign prefix that would "
+        "classify the other way), and with a literal sized so that the frame length sweeps 118..136 and "
         "16370..16530 (1/2/3-byte length varints) - both modes must be detected by get_options_and_frames and parse to "
         "the same statements. Non-trivial: headers containing 0x0A in byte 1 or 2; distinct by header bytes / stream bytes.")
 ASSUMPTIONS = [
@@ -116,6 +117,18 @@ def real_stream_cases(rng):
             yield f"first-frame-length-{target}", o, [("options", o)], triple_rows
 
 
+def parse_at_offset(data: bytes, want_delim: bool):
+    """Parse the stream from a BytesIO whose cursor stands after a foreign prefix that would classify the OTHER way.
+    -> (detected delimited flag, events)"""
+    prefix = b"\x0a\x00\x00XY" if want_delim else b"\x00\x00\x00XY"
+    f = io.BytesIO(prefix + data)
+    f.seek(len(prefix))
+    opts, _frames = get_options_and_frames(f)
+    f = io.BytesIO(prefix + data)
+    f.seek(len(prefix))
+    return opts.params.delimited, T.norm_events(pj.parse("generic", "flat", f))
+
+
 def judge_pair(desc, first_rows, rest_rows):
     """Same content, both framings -> both detected and equal parse."""
     want = None
@@ -136,9 +149,14 @@ def judge_pair(desc, first_rows, rest_rows):
                 return {"clause": "misclassified", "mode": mode, "header": data[:3].hex(),
                         "summary": f"{desc}: get_options_and_frames reports delimited={opts.params.delimited}"}
             evs = T.norm_events(pj.parse("generic", "flat", data))
+            d2, evs2 = parse_at_offset(data, want_delim)
         except Exception as ex:  # noqa: BLE001
             return {"clause": "parse-raised", "mode": mode, "header": data[:3].hex(), "bytes": data.hex(),
                     "summary": f"{desc}: {mode} parse raised {type(ex).__name__}: {ex}"}
+        if d2 != want_delim or evs2 != evs:
+            return {"clause": "misclassified", "mode": mode, "header": data[:3].hex(),
+                    "summary": f"{desc}: {mode} stream handed over at a non-zero BytesIO position (after a foreign prefix) is "
+                               f"classified delimited={d2} / parses differently"}
         out.append(evs)
     if not (out[0] == out[1] == out[2]):
         return {"clause": "paired-parse-differs", "summary": f"{desc}: the framings parse to different results"}
@@ -175,6 +193,12 @@ def pyjelly_pairs(ctx, rng):
                                           f"{data[:3].hex()} misclassified"})
             try:
                 results.append(T.norm_events(pj.parse("generic", "flat", data)))
+                d2, evs2 = parse_at_offset(data, delimited)
+                if d2 != delimited or evs2 != results[-1]:
+                    ctx.violation({"clause": "misclassified", "mode": "delimited" if delimited else "non-delimited",
+                                   "header": data[:3].hex(), "cfg": cfg, "stmts": T.to_json(stmts),
+                                   "summary": "pyjelly output handed over at a non-zero BytesIO position is classified "
+                                              f"delimited={d2} / parses differently"})
             except Exception as ex:  # noqa: BLE001
                 ctx.violation({"clause": "parse-raised", "cfg": cfg, "stmts": T.to_json(stmts), "header": data[:3].hex(),
                                "summary": f"pyjelly output (delimited={delimited}) does not parse: {type(ex).__name__}: {ex}"})
